@@ -472,6 +472,8 @@ class Parser:
             raise Unsupported("generic clause")
         if self.opt_kw("port"):
             self.eat_p("(")
+            if self.is_p(")"):
+                raise Illegal("syntax", f"entity {name}: empty port clause (an interface list has at least one element)", line)
             if not self.is_p(")"):
                 while True:
                     ent.ports.append(self.port_decl())
